@@ -10,6 +10,11 @@ NAME = "Conn"
 POLL = {"POLLIN": 1, "POLLPRI": 2, "POLLOUT": 4, "POLLERR": 8, "POLLHUP": 16, "POLLNVAL": 32, "POLLRDHUP": 8192}
 
 
+def find_ifs_in(node):
+    """the `if` statements strictly inside `node`"""
+    return [n for n in walk(node) if n.get("kind") == "IfStmt" and n is not node]
+
+
 def enum_order(docs, name):
     for d in docs:
         for n in walk(d):
@@ -128,6 +133,26 @@ def generate():
         ptypes = [k.get("type", {}).get("qualType", "") for k in kids(f) if k["kind"] == "ParmVarDecl"]
         handoff(f, "sendBuf" if any("Buffer" in p for p in ptypes) else "sendPiece")
     handoff(sh, "shutdown")
+    # handleWrite's deferred half-close: called at once, or queued behind what is already pending?
+    dsi = [i for i in find_ifs(hw) if mentions(if_cond(i), "state_")]
+    if len(dsi) != 1:
+        raise ExtractError("handleWrite: expected one test of state_ (the deferred half-close)")
+    then = kids(dsi[0])[1]
+    hand = [n for n in walk(then) if n.get("kind") == "CXXMemberCallExpr" and kids(n)
+            and strip(kids(n)[0]).get("kind") == "MemberExpr" and strip(kids(n)[0]).get("name") in ("runInLoop", "queueInLoop")]
+    direct = [n for n in walk(then) if n.get("kind") == "CXXMemberCallExpr" and kids(n)
+              and strip(kids(n)[0]).get("kind") == "MemberExpr" and strip(kids(n)[0]).get("name") == "shutdownInLoop"
+              and len(kids(n)) == 1]
+    if len(hand) == 1 and not direct and mentions(hand[0], "shutdownInLoop"):
+        kind = strip(kids(hand[0])[0])["name"]
+        holds = any(x.get("kind") == "MemberExpr" and x.get("name") == "shared_from_this" for x in walk(hand[0]))
+        out.append("/-- `handleWrite`: the deferred half-close goes through `%s` -/\ndef drainShutdownDispatch : Dispatch := .%s\n"
+                   "def drainShutdownHoldsRef : Bool := %s\n" % (kind, "run" if kind == "runInLoop" else "queue", "true" if holds else "false"))
+    elif len(direct) == 1 and not hand:
+        out.append("/-- `handleWrite`: the deferred half-close is a direct call of `shutdownInLoop()` -/\n"
+                   "def drainShutdownDispatch : Dispatch := .run\ndef drainShutdownHoldsRef : Bool := false\n")
+    else:
+        raise ExtractError("handleWrite: cannot tell how the deferred half-close is performed")
     handoff(fc, "forceClose")
     handoff(the_function(docs, "startRead"), "startRead")
     handoff(the_function(docs, "stopRead"), "stopRead")
@@ -146,10 +171,24 @@ def generate():
     if len(ifs) != 5:
         raise ExtractError("handleEventWithGuard: expected 5 tests of revents_, found %d" % len(ifs))
     names = ["dispClose", "dispNvalLog", "dispError", "dispRead", "dispWrite"]
+    cbs = {"dispClose": "closeCallback_", "dispError": "errorCallback_", "dispRead": "readCallback_", "dispWrite": "writeCallback_"}
     for nm, i in zip(names, ifs):
         t = Tr({"revents_": "revents"}, {})
         e = unparen(t.expr(if_cond(i)))
         out.append("/-- `Channel::handleEventWithGuard`: %s -/\ndef %s (revents : Nat) : Prop := %s\n"
                    "instance : Decidable (%s revents) := by unfold %s; infer_instance\n" % (nm, nm, e, nm, nm))
+        if nm in cbs:
+            # the test that guards the callback itself, inside that branch: the channel's CURRENT interest
+            # (an earlier callback of the same batch may have changed it) and "a callback is set"
+            inner = [j for j in find_ifs_in(i) if mentions(if_cond(j), cbs[nm])]
+            if len(inner) != 1:
+                raise ExtractError("handleEventWithGuard: expected one test of %s inside the %s branch" % (cbs[nm], nm))
+            t2 = Tr({"isNoneEvent()": "noInterest", "isReading()": "reading", "isWriting()": "writing",
+                     cbs[nm] + ".operator bool()": "True"}, {})
+            e2 = unparen(t2.expr(if_cond(inner[0])))
+            out.append("/-- `Channel::handleEventWithGuard`: the callback of the %s branch runs only if -/\n"
+                       "def %sSub (noInterest reading writing : Bool) : Prop := %s\n"
+                       "instance : Decidable (%sSub noInterest reading writing) := by unfold %sSub; infer_instance\n"
+                       % (nm, nm, e2, nm, nm))
     out.append("end MuduoVerif.Gen.Conn\n")
     return "\n".join(out)
